@@ -688,8 +688,9 @@ func splitSpan(sp Span, cellOffset int, mode TextReadMode) (left Span, right Spa
 
 		clusterEnd := cellPos + width
 		if cellOffset >= cellPos && cellOffset < clusterEnd {
-			// Split point is within this cluster
-			if width > 1 {
+			// Split point is within this cluster (at its first cell the split
+			// falls between two clusters and breaks nothing)
+			if width > 1 && cellOffset > cellPos {
 				// We're breaking a wide cluster - return the wide char we're splitting
 				leftText := sp.Text[:idx]
 				rightText := sp.Text[idx+consumed:]
